@@ -1,7 +1,310 @@
-(* C06 -- placeholder while the theorems are being built (Proofs/IsoProofs*.v). *)
-From LV Require Import Base.Bytes Spec.Crypto.Iso Spec.Crypto.IsoConcrete.
+(* Props/C06.v -- property C06: the standard security handler agrees with the ISO 32000 algorithms.
+   Statements only; proofs live in Proofs/IsoProofs*.v.
 
-Theorem C06_placeholder_vectors : P_of_flags 3900 = (-4)%Z.
-Proof. exact P_all. Qed.
+   Two sides.  [Handler.*] is the model of lopdf written from the Rust source (Model/Crypto/Handler.v, property
+   C05's model, tied to the crate by C05's and C06's differential runs).  [Iso.*] is the standard's own
+   formulation (Spec/Crypto/Iso.v), which shares no definition with the model except the PDF object type; the
+   extracted [Iso] is the independent implementation the check runs lopdf against.
+   [P : prims] are the third-party primitives (MD5, SHA-2, the AES block function), the same abstract functions on
+   both sides ([iprims_of P]); RC4 is lopdf's own code on both sides (anchored by RFC 6229 vectors).
+   Assumed of the primitives, where used: [forall m, length (p_md5 P m) = 16] (true of the Gallina MD5:
+   C06_md5_length) and [aes_ok P] (AES decryption inverts encryption on 16-byte blocks; not proved of the Gallina
+   AES -- vectors and differential runs only).
+   Passwords are the prepared byte strings (PDFDocEncoding / SASLprep are an oracle outside the development).
 
-Print Assumptions C06_placeholder_vectors.
+   Domain (each a restriction the property text itself makes, see notes/C06.md): revisions 2-6; key lengths
+   40..128 in steps of 8; conforming permission words; direct objects hold no streams; a stream naming a crypt
+   filter has it as its only filter; no EFF entry; the encryption dictionary is an indirect object.  The last
+   three are the open known-finding classes decodeparms-array, eff-ignored, direct-encrypt-dict, each with a
+   witness below. *)
+From LV Require Import Base.Bytes Base.Sx Model.Obj Model.DocQ Gen.Crypto
+  Model.Crypto.Word Model.Crypto.MD5 Model.Crypto.RC4 Model.Crypto.PKCS5 Model.Crypto.Handler Model.Crypto.Concrete
+  Spec.Crypto.Iso Spec.Crypto.IsoConcrete
+  Proofs.CryptoProofs Proofs.CryptoProofsFilter Proofs.CryptoProofsObject Proofs.IsoProofs Proofs.IsoProofsData
+  Proofs.IsoProofsObj Proofs.IsoProofsFilter Proofs.IsoProofsExamples.
+Local Open Scope N_scope.
+
+(* ---------------- rung 1: constants and formulations ---------------- *)
+(* what the translator reads out of the Rust source is what the standard prints *)
+Theorem C06_constants :
+  PAD_BYTES = padding_string /\ MD5_ITER = 50 /\ RC4_ITER = 19 /\ AES_SALT = [x73; x41; x6c; x54] /\
+  PW_TRUNC = 127 /\ PW_PAD_LEN = 32 /\ PERM_FLAGS = perm_bits_mask /\
+  P_RESERVED = perm_reserved_ones + 4294967295 * 4294967296 /\
+  HASH_MIN_ROUNDS = 64 /\ HASH_ROUND_OFFSET = 32 /\ KEYLEN_MIN = 40 /\ KEYLEN_MAX = 128.
+Proof. exact consts_agree. Qed.
+
+(* "pad or truncate to exactly 32 bytes": lopdf's min/slices are append-then-truncate, for every password *)
+Theorem C06_padding : forall pw, pad_pw pw = pad32 pw.
+Proof. exact pad_pw_eq. Qed.
+
+(* Algorithm 2.B (c): the byte sum lopdf takes and the big-endian number the standard takes agree modulo 3, for
+   every byte string *)
+Theorem C06_sum_bytes_mod3 : forall l, sum_bytes l mod 3 = be_value l mod 3.
+Proof. exact sum_bytes_mod3. Qed.
+
+(* lopdf rebuilds P from its bit flags; for every conforming permission word that is P itself, as the 32-bit
+   number of Algorithm 2 (d), the 64-bit number of Algorithm 10 (a) and the integer written as /P *)
+Theorem C06_p_value_conforming : forall p, conforming_P p = true ->
+  p_value (perms_of_Z p) = P_u32 p + 4294967295 * 4294967296 /\ p_value_i64 (perms_of_Z p) = p.
+Proof. exact p_value_conforming. Qed.
+
+(* the Gallina MD5 yields 16 bytes *)
+Theorem C06_md5_length : forall m, length (md5 m) = 16%nat.
+Proof. exact md5_length. Qed.
+
+(* Algorithm 1 (a)-(d): the per-object key, min(n + 5, 16) bytes, "sAlT" for AES *)
+Theorem C06_alg1_key : forall P m fek id,
+  cf_compute_key P (meth_cfm m) fek id =
+  match m with
+  | M_RC4 => alg1_key (iprims_of P) false fek id
+  | M_AESV2 => alg1_key (iprims_of P) true fek id
+  | _ => fek
+  end.
+Proof. exact alg1_key_refines. Qed.
+
+(* Algorithm 2: the file encryption key *)
+Theorem C06_alg2 : forall P, (forall m, length (p_md5 P m) = 16%nat) ->
+  forall a R Length O U Pz em (d : doc) id0 pw,
+  matches_r4 a R Length O U Pz em -> file_id_0 d = Ok id0 ->
+  compute_fek_r4 P a d pw = Ok (alg2 (iprims_of P) R Length O Pz id0 em pw).
+Proof. exact alg2_refines. Qed.
+
+(* ---------------- rung 2: Algorithms 3-7 (revisions 2-4) ---------------- *)
+Theorem C06_alg3 : forall P, (forall m, length (p_md5 P m) = 16%nat) ->
+  forall a R Length O U Pz em owner user, matches_r4 a R Length O U Pz em ->
+  owner_value_r4 P a owner user = Ok (alg3 (iprims_of P) R Length (Some owner) user).
+Proof. exact alg3_refines. Qed.
+
+Theorem C06_alg4 : forall P, (forall m, length (p_md5 P m) = 16%nat) ->
+  forall a Length O U Pz em (d : doc) id0 user, matches_r4 a 2 Length O U Pz em -> file_id_0 d = Ok id0 ->
+  user_value_r2 P a d user = Ok (alg4 (iprims_of P) Length O Pz id0 em user).
+Proof. exact alg4_refines. Qed.
+
+Theorem C06_alg5 : forall P, (forall m, length (p_md5 P m) = 16%nat) ->
+  forall a R Length O U Pz em (d : doc) id0 user rnd, matches_r4 a R Length O U Pz em -> file_id_0 d = Ok id0 ->
+  user_value_r3 P a d user rnd = Ok (alg5 (iprims_of P) R Length O Pz id0 em user rnd).
+Proof. exact alg5_refines. Qed.
+
+Theorem C06_alg6 : forall P, (forall m, length (p_md5 P m) = 16%nat) ->
+  forall a R Length O U Pz em (d : doc) id0 pw,
+  matches_r4 a R Length O U Pz em -> file_id_0 d = Ok id0 -> length U = 32%nat ->
+  auth_user_r4 P a d pw =
+  match alg6 (iprims_of P) R Length O U Pz id0 em pw with Some _ => Ok tt | None => Err D_IncorrectPassword end.
+Proof. exact alg6_refines. Qed.
+
+(* Algorithm 7 (a), (b): "from 19 to 0" against lopdf's 19..1 followed by the key itself *)
+Theorem C06_alg7_user : forall P, (forall m, length (p_md5 P m) = 16%nat) ->
+  forall a R Length O U Pz em pw, matches_r4 a R Length O U Pz em ->
+  recover_user_r4 P a pw = Ok (alg7_user (iprims_of P) R Length O pw).
+Proof. exact alg7_user_refines. Qed.
+
+Theorem C06_alg7 : forall P, (forall m, length (p_md5 P m) = 16%nat) ->
+  forall a R Length O U Pz em (d : doc) id0 pw,
+  matches_r4 a R Length O U Pz em -> file_id_0 d = Ok id0 -> length U = 32%nat ->
+  auth_owner_r4 P a d pw =
+  match alg7 (iprims_of P) R Length O U Pz id0 em pw with Some _ => Ok tt | None => Err D_IncorrectPassword end.
+Proof. exact alg7_refines. Qed.
+
+(* the key lopdf decrypts with is the key the standard's opening procedure yields, for the user password and for
+   the owner password (Algorithm 7 (c): the recovered user password's key) *)
+Theorem C06_open_key_r4 : forall P, (forall m, length (p_md5 P m) = 16%nat) ->
+  forall a R Length O U Pz em (d : doc) id0 pw k,
+  matches_r4 a R Length O U Pz em -> file_id_0 d = Ok id0 -> length U = 32%nat ->
+  match alg6 (iprims_of P) R Length O U Pz id0 em pw with
+  | Some k0 => Some k0
+  | None => alg7 (iprims_of P) R Length O U Pz id0 em pw
+  end = Some k ->
+  compute_fek P a d pw = Ok k.
+Proof. exact open_key_r4_refines. Qed.
+
+(* ---------------- rung 2: Algorithms 2.A, 2.B, 8-13 (revisions 5, 6) ---------------- *)
+(* Algorithm 2.B: 64 rounds, then "while the last byte of E > round number - 32", against lopdf's single loop
+   with its exit test; revision 5: the plain SHA-256 *)
+Theorem C06_alg2B : forall P a R pw salt uk, pa_revision a = R ->
+  compute_hash P a pw salt uk = hash_r56 (iprims_of P) R pw salt uk.
+Proof. exact alg2B_refines. Qed.
+
+Theorem C06_alg8 : forall P a R fek pw rnd, pa_revision a = R -> length fek = 32%nat ->
+  user_value_r6 P a fek pw rnd = alg8 (iprims_of P) R fek pw rnd.
+Proof. exact alg8_refines. Qed.
+
+Theorem C06_alg9 : forall P a R fek pw rnd, pa_revision a = R -> length fek = 32%nat ->
+  owner_value_r6 P a fek pw rnd = alg9 (iprims_of P) R fek pw (pa_U a) rnd.
+Proof. exact alg9_refines. Qed.
+
+Theorem C06_alg10 : forall P a Pz em fek rnd,
+  pa_perms a = perms_of_Z Pz -> conforming_P Pz = true -> pa_encrypt_metadata a = em ->
+  perms_r6 P a fek rnd = alg10 (iprims_of P) Pz em fek rnd.
+Proof. exact alg10_refines. Qed.
+
+Theorem C06_alg11 : forall P a R pw, pa_revision a = R ->
+  auth_user_r6 P a pw = if alg11 (iprims_of P) R (pa_U a) pw then Ok tt else Err D_IncorrectPassword.
+Proof. exact alg11_refines. Qed.
+
+Theorem C06_alg12 : forall P a R pw, pa_revision a = R ->
+  auth_owner_r6 P a pw = if alg12 (iprims_of P) R (pa_O a) (pa_U a) pw then Ok tt else Err D_IncorrectPassword.
+Proof. exact alg12_refines. Qed.
+
+(* Algorithm 13: lopdf accepts every Perms the standard accepts (it compares 3 of the 4 permission bytes) whose
+   byte 8 is the 'T'/'F' Algorithm 10 (c) writes -- lopdf checks that byte, the standard's text does not *)
+Theorem C06_alg13_partial : forall P a Pz em fek,
+  pa_perms a = perms_of_Z Pz -> conforming_P Pz = true -> pa_encrypt_metadata a = em ->
+  alg13 (iprims_of P) Pz fek (pa_perms_enc a) = true ->
+  nth 8 (p_aes_dec P fek (pa_perms_enc a)) x00 = (if em then "T"%byte else "F"%byte) ->
+  validate_permissions P a fek = Ok tt.
+Proof. exact alg13_refines. Qed.
+
+(* Algorithm 2.A: whenever the standard retrieves a key (owner or user password, Perms valid), lopdf retrieves
+   the same key.  Partial in the other direction: with the owner password lopdf does not look at Perms at all. *)
+Theorem C06_alg2A_partial : forall P a R O U OE UE Perms Pz em pw k,
+  matches_r6 a R O U OE UE Perms Pz em ->
+  alg2A (iprims_of P) R O U OE UE Perms Pz pw = Some k ->
+  nth 8 (p_aes_dec P k Perms) x00 = (if em then "T"%byte else "F"%byte) ->
+  compute_fek_r6 P a pw = Ok k.
+Proof. exact alg2A_refines. Qed.
+
+(* ---------------- rung 3: data, crypt filters, objects ---------------- *)
+(* Algorithm 1 / 1.A: the bytes lopdf writes for one string or stream are the bytes the standard defines (key, IV
+   in front, RFC 2898 padding, CBC chaining; RC4; Identity) *)
+Theorem C06_alg1_encrypt : forall P, (forall m, length (p_md5 P m) = 16%nat) ->
+  forall m fek id s ivs, method_ok m fek -> (1 <= length fek)%nat ->
+  cf_encrypt P (meth_cfm m) (cf_compute_key P (meth_cfm m) fek id) s ivs = Ok (iso_enc_step P m fek id s ivs).
+Proof. exact data_encrypt_refines. Qed.
+
+(* one string or stream: written by the standard's rules, decrypted by lopdf *)
+Theorem C06_iso_data_lopdf_decrypt : forall P, (forall m, length (p_md5 P m) = 16%nat) ->
+  forall m fek id s ivs, aes_ok P -> method_ok m fek -> (1 <= length fek)%nat ->
+  cf_decrypt P (meth_cfm m) (cf_compute_key P (meth_cfm m) fek id) (fst (iso_enc_step P m fek id s ivs)) = Ok s.
+Proof. exact iso_data_lopdf_decrypt. Qed.
+
+(* one string or stream: written by lopdf, decrypted by the standard's rules *)
+Theorem C06_lopdf_data_iso_decrypt : forall P, (forall m, length (p_md5 P m) = 16%nat) ->
+  forall m fek id s ivs ct ivs', aes_ok P -> method_ok m fek -> (1 <= length fek)%nat ->
+  cf_encrypt P (meth_cfm m) (cf_compute_key P (meth_cfm m) fek id) s ivs = Ok (ct, ivs') ->
+  data_decrypt (iprims_of P) m fek id ct = Some s.
+Proof. exact lopdf_data_iso_decrypt. Qed.
+
+(* crypt filter selection (StmF, StrF, CF, the predefined Identity, the Crypt filter of a stream and its default,
+   RC4 for V < 4): lopdf's state selects the standard's method for every string and stream *)
+Theorem C06_filter_selection : forall st ip fek, state_matches st ip fek -> agree st ip fek.
+Proof. exact agree_of_state. Qed.
+
+(* what is encrypted: for every indirect object lopdf writes exactly what the standard's writer writes -- all
+   strings incl. those of stream dictionaries, all streams, except XRef streams and (EncryptMetadata false) the
+   metadata stream *)
+Theorem C06_encrypt_object : forall P, (forall m, length (p_md5 P m) = 16%nat) ->
+  forall st ip fek id o ivs, agree st ip fek -> indirect_ok ip o ->
+  encrypt_object P st id o ivs = Ok (encrypt_indirect (iprims_of P) ip fek id o ivs).
+Proof. exact encrypt_object_refines. Qed.
+
+Theorem C06_encrypt_objects : forall P, (forall m, length (p_md5 P m) = 16%nat) ->
+  forall st ip fek, agree st ip fek ->
+  forall m, Forall (fun io => indirect_ok ip (snd io)) m -> forall ivs,
+  Handler.encrypt_objects P st m ivs = Ok (Iso.encrypt_objects (iprims_of P) ip fek m ivs).
+Proof. exact encrypt_objects_refines. Qed.
+
+(* an object encrypted by the standard's writer is decrypted by lopdf to the object itself ([norm_len]: with
+   Stream::set_content's Length bookkeeping, the identity on streams whose Length is right) *)
+Theorem C06_iso_encrypt_lopdf_decrypt_object : forall P, (forall m, length (p_md5 P m) = 16%nat) ->
+  forall st ip fek id o ivs, aes_ok P -> agree st ip fek -> indirect_ok ip o ->
+  decrypt_object P st id (fst (encrypt_indirect (iprims_of P) ip fek id o ivs)) = Ok (norm_len st o).
+Proof. exact iso_encrypt_lopdf_decrypt_object. Qed.
+
+(* The direction lopdf -> standard at object level is C06_encrypt_object (lopdf's output IS the standard writer's
+   output) together with C06_lopdf_data_iso_decrypt per string/stream; the object- and document-level round trip
+   of the SPECIFICATION's reader (decrypt_indirect . encrypt_indirect = id, open_document . encrypt_document = id)
+   is not proved -- it is computed on the instances below and checked on every generated case. *)
+
+(* ---------------- non-vacuity and computed whole-document instances ---------------- *)
+Theorem C06_example_matches_r4 : matches_r4 ex_palg 3 128 (zeros 32) (zeros 32) (-1340) true.
+Proof. exact ex_matches_r4. Qed.
+
+Theorem C06_example_state_matches : state_matches ex_st ex_ip (zeros 16).
+Proof. exact ex_state_matches. Qed.
+
+Theorem C06_example_iso_encrypt_lopdf_decrypt :
+  match doc_decrypt concrete ex_enc_v2 (bs "user") with
+  | DOk d' _ => bytes_eqb (sx_print (objmap_to_sx (d_objects d'))) (sx_print (objmap_to_sx (d_objects ex_doc)))
+  | _ => false
+  end = true.
+Proof. exact iso_encrypt_lopdf_decrypt_v2. Qed.
+
+Theorem C06_example_lopdf_encrypt_iso_decrypt :
+  match ex_lopdf_enc_v2 with
+  | Some e => match open_document iconcrete e (bs "user") with
+              | Opened d' _ => bytes_eqb (sx_print (objmap_to_sx (d_objects d'))) (sx_print (objmap_to_sx (d_objects ex_doc)))
+              | _ => false
+              end
+  | None => false
+  end = true.
+Proof. exact lopdf_encrypt_iso_decrypt_v2. Qed.
+
+Theorem C06_example_writers_agree :
+  match ex_lopdf_enc_v2 with
+  | Some e => bytes_eqb (sx_print (objmap_to_sx (remove (d_objects e) (5, 0))))
+                        (sx_print (objmap_to_sx (remove (d_objects ex_enc_v2) (5, 0))))
+  | None => false
+  end = true.
+Proof. exact writers_agree_v2. Qed.
+
+(* no owner password: the empty password does not open the document *)
+Theorem C06_example_empty_password_rejected :
+  match open_document iconcrete ex_enc_v2 [] with WrongPassword => true | _ => false end = true.
+Proof. exact empty_password_rejected_v2. Qed.
+
+(* ---------------- witnesses of the open known-finding classes ---------------- *)
+(* eff-ignored: an EFF entry naming another crypt filter *)
+Theorem C06_eff_class_witness :
+  stream_cf ex_st (OStream [(bs "Type", OName (bs "EmbeddedFile"))] []) = CF_AESV2 /\
+  stream_method ex_ip_eff [(bs "Type", OName (bs "EmbeddedFile"))] = M_Identity.
+Proof. exact eff_class_witness. Qed.
+
+(* decodeparms-array: DecodeParms given as the array parallel to Filter *)
+Theorem C06_decodeparms_array_class_witness :
+  stream_cf ex_st (OStream ex_sd_dparr []) = CF_Identity /\ stream_method ex_ip ex_sd_dparr = M_AESV2.
+Proof. exact decodeparms_array_class_witness. Qed.
+
+(* direct-encrypt-dict: the encryption dictionary as a direct object of the trailer *)
+Theorem C06_direct_encrypt_class_witness :
+  is_encrypted ex_doc_direct = false /\
+  match find_encrypt ex_doc_direct with Some (None, _) => true | _ => false end = true.
+Proof. exact direct_encrypt_class_witness. Qed.
+
+Print Assumptions C06_constants.
+Print Assumptions C06_padding.
+Print Assumptions C06_sum_bytes_mod3.
+Print Assumptions C06_p_value_conforming.
+Print Assumptions C06_md5_length.
+Print Assumptions C06_alg1_key.
+Print Assumptions C06_alg2.
+Print Assumptions C06_alg3.
+Print Assumptions C06_alg4.
+Print Assumptions C06_alg5.
+Print Assumptions C06_alg6.
+Print Assumptions C06_alg7_user.
+Print Assumptions C06_alg7.
+Print Assumptions C06_open_key_r4.
+Print Assumptions C06_alg2B.
+Print Assumptions C06_alg8.
+Print Assumptions C06_alg9.
+Print Assumptions C06_alg10.
+Print Assumptions C06_alg11.
+Print Assumptions C06_alg12.
+Print Assumptions C06_alg13_partial.
+Print Assumptions C06_alg2A_partial.
+Print Assumptions C06_alg1_encrypt.
+Print Assumptions C06_iso_data_lopdf_decrypt.
+Print Assumptions C06_lopdf_data_iso_decrypt.
+Print Assumptions C06_filter_selection.
+Print Assumptions C06_encrypt_object.
+Print Assumptions C06_encrypt_objects.
+Print Assumptions C06_iso_encrypt_lopdf_decrypt_object.
+Print Assumptions C06_example_matches_r4.
+Print Assumptions C06_example_state_matches.
+Print Assumptions C06_example_iso_encrypt_lopdf_decrypt.
+Print Assumptions C06_example_lopdf_encrypt_iso_decrypt.
+Print Assumptions C06_example_writers_agree.
+Print Assumptions C06_example_empty_password_rejected.
+Print Assumptions C06_eff_class_witness.
+Print Assumptions C06_decodeparms_array_class_witness.
+Print Assumptions C06_direct_encrypt_class_witness.
